@@ -821,7 +821,7 @@ func init() {
 	mc.Register(&mc.Prop{
 		ID:    "C06",
 		Level: "exploration",
-		Rule: cliStreamRule[1:] + "(Free-running complement under the race detector: 8 goroutines doing this property's operations on objects of their own must get the values the same work gives alone.)  " + "(on every case also: two operations on one object - ToUpper/ToLower then ReverseComplement / ReverseComplementSequences(one row) / Unalign, and the strand operation first - against the composed model; the alignment Unalign was called on is unchanged, a second Unalign gives the same rows, and case folding / reverse-complementing the un-aligned set or the alignment afterwards does not show in the other object; every observed row is the same by index, by name and by iteration;) (sequence sets of 1-2 rows, total length <= 4, over {A,c,-,0xE9,0xC3,0xA9} with at least one byte >= 0x80: ToUpper/ToLower/Unalign keep row lengths, fold the 7-bit bytes exactly and are idempotent;) (also: rows of every length 7..80 and within -1..+2 of 128, 256, 1024, 4096 cycling through the alphabet, alone and as 2-row alignments;) bounded-exhaustive enumeration; on every case: ReverseComplement and ReverseComplementSequences for every subset of {row names} + {one unknown name}, each applied twice (involution), " +
+		Rule: cliStreamRule[1:] + "Command line: goalign revcomp (no name, known and unknown names in several orders), toupper, tolower, unalign on 3 alignments, and revcomp / toupper / tolower --unaligned on 5 sets (2 of them ragged): what is written must be what the library calls give. (Free-running complement under the race detector: 8 goroutines doing this property's operations on objects of their own must get the values the same work gives alone.)  " + "(on every case also: two operations on one object - ToUpper/ToLower then ReverseComplement / ReverseComplementSequences(one row) / Unalign, and the strand operation first - against the composed model; the alignment Unalign was called on is unchanged, a second Unalign gives the same rows, and case folding / reverse-complementing the un-aligned set or the alignment afterwards does not show in the other object; every observed row is the same by index, by name and by iteration;) (sequence sets of 1-2 rows, total length <= 4, over {A,c,-,0xE9,0xC3,0xA9} with at least one byte >= 0x80: ToUpper/ToLower/Unalign keep row lengths, fold the 7-bit bytes exactly and are idempotent;) (also: rows of every length 7..80 and within -1..+2 of 128, 256, 1024, 4096 cycling through the alphabet, alone and as 2-row alignments;) bounded-exhaustive enumeration; on every case: ReverseComplement and ReverseComplementSequences for every subset of {row names} + {one unknown name}, each applied twice (involution), " +
 			"ToUpper and ToLower each applied twice (idempotence) and once more after the first row, as given and with its case inverted, was added under two new names (rows added after a conversion are converted by the next one), Unalign; results compared row by row (names, order, residues, Length()) with the IUPAC complement derived from base sets. Cases: " +
 			"(i) all 256 byte values as a 1x1 alignment with the alphabet forced to nucleotide, also through align.Complement/Reverse and Sequence.Complement/Reverse; " +
 			"(ii) every single row of length 0..4 over the 35 symbols ACGTRYSWKMBDHVN acgtryswkmbdhvn - . * U u and of length 5..6 (quick) / 5..7 (thorough) over {A,c,K,m,B,-,.,*}, also through the Sequence-level functions; " +
@@ -836,9 +836,9 @@ func init() {
 		},
 		// free-running complement: goroutines that each own their objects must get what they get alone (harness/racepass)
 		Post:  func(m *mc.Master) { m.RacePass("own-strand") },
-		Tasks: func(tier string) []mc.Task { return append(c06Tasks(tier), cliStreamTasks("C06")...) },
+		Tasks: func(tier string) []mc.Task { return append(append(c06Tasks(tier), cliStreamTasks("C06")...), c06CLITasks()...) },
 		Replay: func(c *mc.Ctx, payload json.RawMessage) {
-			if cliStreamReplay(c, payload) {
+			if cliStreamReplay(c, payload) || c06CLIReplay(c, payload) {
 				return
 			}
 			var cs c06Case
